@@ -302,6 +302,56 @@ def module_value(F: Facts, m: Module, name: str, _depth: int = 0):
     raise NotLiteral('%s.%s is not a literal' % (m.name, name))
 
 
+def _first_line(fn: ast.AST) -> int:
+    """co_firstlineno of a function: the line of its first decorator, else of its def."""
+    decs = getattr(fn, 'decorator_list', [])
+    return min([d.lineno for d in decs] + [fn.lineno])
+
+
+def _ply_sort_key(F: Facts, m: Module, name: str, node: ast.FunctionDef):
+    """PLY orders the action functions by (co_firstlineno, file name, name) of the object the name is bound to.  For a plain def
+    that is the def itself; a decorator that returns its argument changes nothing; a decorator that returns a wrapper function
+    (functools.wraps keeps the name and the docstring, not the code object) puts the action where the *wrapper* was defined - in
+    whatever file - and with it the rank of its productions in reduce/reduce conflicts."""
+    line, rel = _first_line(node), m.rel
+    for d in node.decorator_list:           # outermost first: the object finally bound is what the first decorator returned
+        callee = d.func if isinstance(d, ast.Call) else d
+        r = F.resolve_expr(m, callee)
+        if r[0] in ('ext', 'builtin') and r[1] in ('functools.wraps', 'staticmethod'):
+            continue
+        fi = F.functions.get(r[1]) if r[0] == 'fn' else None
+        if fi is None or not isinstance(fi.node, ast.FunctionDef):
+            raise AnalysisError('grammar: decorator `%s` of %s is not a function of the package: where PLY ranks the productions of this '
+                                'action cannot be told' % (norm(d), name))
+        dec_fn = fi.node
+        if isinstance(d, ast.Call):
+            # a decorator factory: the decorator is the nested function it returns
+            inner = _returned_def(dec_fn)
+            if inner is None:
+                raise AnalysisError('grammar: decorator factory `%s` of %s does not return a nested function' % (norm(callee), name))
+            dec_fn = inner
+        params = [a.arg for a in dec_fn.args.args]
+        rets = [n.value for n in ast.walk(dec_fn) if isinstance(n, ast.Return) and n.value is not None
+                and not any(n in ast.walk(x) for x in ast.walk(dec_fn) if isinstance(x, (ast.FunctionDef, ast.Lambda)) and x is not dec_fn)]
+        if rets and all(isinstance(v, ast.Name) and params and v.id == params[0] for v in rets):
+            continue                            # returns the action itself: same code object, same place
+        wrapper = _returned_def(dec_fn)
+        if wrapper is None:
+            raise AnalysisError('grammar: decorator `%s` of %s returns neither the action nor a nested wrapper function' % (norm(d), name))
+        return (_first_line(wrapper), fi.module.rel, name)       # the first wrapper decides (what it wraps no longer matters)
+    return (line, rel, name)
+
+
+def _returned_def(fn: ast.FunctionDef):
+    """The nested def a function returns by name (on every return), else None."""
+    nested = {n.name: n for n in fn.body if isinstance(n, ast.FunctionDef)}
+    rets = [n.value for n in ast.walk(fn) if isinstance(n, ast.Return) and n.value is not None
+            and not any(n in ast.walk(x) for x in nested.values())]
+    if rets and all(isinstance(v, ast.Name) and v.id in nested for v in rets) and len({v.id for v in rets}) == 1:
+        return nested[rets[0].id]
+    return None
+
+
 # ------------------------------------------------------------------- grammar
 @dataclass
 class Production:
@@ -479,9 +529,10 @@ def extract(F: Facts) -> Grammar:
             if t in prec_of:
                 raise AnalysisError('grammar: precedence given twice for %s' % t)
             prec_of[t] = (row[0], level)
-    funcs = [(n.lineno, name, n) for name, n in rules_m.defs.items()
+    funcs = [(_ply_sort_key(F, rules_m, name, n), name, n) for name, n in rules_m.defs.items()
              if isinstance(n, ast.FunctionDef) and name.startswith('p_') and name != 'p_error']
-    funcs.sort()
+    funcs.sort(key=lambda x: x[0])
+    funcs = [(k[0], name, n) for k, name, n in funcs]
     prods: List[Production] = []
     raw: List[Tuple[str, List[str], str, int, int]] = []
     doc_over = {}
@@ -666,7 +717,18 @@ def extract_lexer(F: Facts, g: Optional[Grammar] = None) -> LexSpec:
                 continue
             if tn == 'ignore' or tn.startswith('ignore_'):
                 raise AnalysisError('lexer: %s as a function is not modelled' % name)
-            frules.append(LexRule(tn, _rule_regex(F, lex_m, name, node), node, node.lineno))
+            # PLY tries function rules in the order of co_firstlineno of the object bound to the name: a decorator that returns a
+            # wrapper moves the rule to the wrapper's line (TOKEN(...) from ply.lex sets the regex and returns the function itself)
+            deco_ = [d for d in node.decorator_list if F.resolve_expr(lex_m, d.func if isinstance(d, ast.Call) else d) not in (
+                ('ext', 'smartquery.ply.lex.TOKEN'), ('ext', 'smartquery.ply.lex.Token'))]
+            line_ = node.lineno
+            if deco_:
+                probe_ = ast.FunctionDef(name=node.name, args=node.args, body=node.body, decorator_list=deco_, returns=None, type_comment=None,
+                                         lineno=node.lineno, col_offset=0, end_lineno=getattr(node, 'end_lineno', node.lineno), end_col_offset=0)
+                key_ = _ply_sort_key(F, lex_m, name, probe_)
+                if key_[1] != lex_m.rel or key_[0] != _first_line(probe_):
+                    line_ = key_[0]
+            frules.append(LexRule(tn, _rule_regex(F, lex_m, name, node), node, line_))
     # rules the module does not spell as `def t_X` / `t_X = '<regex>'`: made while the module is imported (factory functions
     # returning rule closures, regexes computed from tables, globals().update(...)).  The module body is run through the
     # evaluator once and the t_ bindings are read from the result.
